@@ -238,6 +238,9 @@ func sxGjBounds(b *geom.Bounds) string {
 	})
 }
 
+// c07Feature is decoded into again and again.
+var c07Feature geojson.Feature
+
 func sxFeature(f *geojson.Feature) string {
 	if f == nil {
 		return "nil"
@@ -282,11 +285,18 @@ func decodeKind(kind string, data []byte) string {
 			}
 			return "(ok " + sxRaw(g) + ")"
 		case "feat":
-			var f geojson.Feature
-			if err := json.Unmarshal(data, &f); err != nil {
+			// half of the documents are decoded into one long-lived Feature value, as a loop over a
+			// stream of features does: nothing of the previous feature may stay behind
+			var fresh geojson.Feature
+			f := &fresh
+			if len(data)%2 == 0 {
+				f = &c07Feature
+				f.ID, f.BBox = "", nil // (absent members are left alone, as encoding/json does: the caller clears them)
+			}
+			if err := json.Unmarshal(data, f); err != nil {
 				return sxGeoErr(err)
 			}
-			return "(ok " + sxFeature(&f) + ")"
+			return "(ok " + sxFeature(f) + ")"
 		default:
 			var fc geojson.FeatureCollection
 			if err := json.Unmarshal(data, &fc); err != nil {
@@ -745,11 +755,16 @@ func genC07(r *Rng, e *Emitter, n int) {
 					return sxGeoErr(err)
 				}
 				text = b
-				var f2 geojson.Feature
+				var fresh geojson.Feature
+				f2 := &fresh
+				if len(b)%2 == 0 {
+					f2 = &c07Feature
+					f2.ID, f2.BBox = "", nil
+				}
 				if err := f2.UnmarshalJSON(b); err != nil {
 					return sxGeoErr(err)
 				}
-				return "(ok " + sxFeature(&f2) + ")"
+				return "(ok " + sxFeature(f2) + ")"
 			})
 			e.tally("feat")
 			e.emit("C07.feat", fi.sx, "(m ((text "+hexStr(string(text))+")) "+out+")")
